@@ -81,6 +81,7 @@ func init() {
 			"inlined), never accepts without the member's verdict, and re-attaches the discriminator to results; R-CONVSIB - the four native-to-wire converters share the " +
 			"CanConvert-guarded shape. NOT decided: value equality of round trips, idempotence, CBOR width normalisation, the treat-empty-as-default identification.",
 		Rules: []func(*Ctx){
+			func(c *Ctx) { c.ruleChildren("R-CHILDREN"); c.R.Floor("R-CHILDREN", 8) },
 			func(c *Ctx) { c.ruleDiscType("R-DISCTYPE") },
 			func(c *Ctx) { c.ruleDeleg("R-DELEG") },
 			func(c *Ctx) { c.ruleBoundForm("R-BOUNDFORM") },
@@ -106,6 +107,7 @@ func init() {
 			"len(properties) == 1 (R-MAPORDER/R-EXPLICIT in C04/C12); R-SYMM - one-of dispatch: the member's verdict decides on every operation, data is stripped of a " +
 			"non-inlined discriminator by copy, results get it back. NOT decided: the full truth table over interacting rule graphs and presence subsets.",
 		Rules: []func(*Ctx){
+			func(c *Ctx) { c.ruleNoCoerce("R-NOCOERCE"); c.R.Floor("R-NOCOERCE", 3) },
 			func(c *Ctx) { c.ruleObjectRules("R-OBJ") },
 			func(c *Ctx) { c.ruleOneOfSymm("R-SYMM") },
 			func(c *Ctx) { c.ruleErrDrop("R-ERRDROP", c.scopePkg("schema")) },
@@ -120,6 +122,8 @@ func init() {
 			"R-MEMBER - enum acceptance is controlled by equality with a table key, a failed pattern match rejects; R-BOOLWORDS - the fourteen documented words with their " +
 			"polarity; R-ERRDROP - no error of a repo call is discarded. NOT decided: that the lenient conversions denote the right number; unit arithmetic (C16).",
 		Rules: []func(*Ctx){
+			func(c *Ctx) { c.ruleNoCoerce("R-NOCOERCE"); c.R.Floor("R-NOCOERCE", 3) },
+			func(c *Ctx) { c.ruleChildren("R-CHILDREN"); c.R.Floor("R-CHILDREN", 8) },
 			func(c *Ctx) { c.ruleBoundForm("R-BOUNDFORM") },
 			func(c *Ctx) { c.ruleMustUse("R-MUSTUSE") },
 			func(c *Ctx) { c.ruleNarrow("R-NARROW") },
